@@ -86,6 +86,16 @@ fn run(ev: &str, ph: &str, input: String) -> Option<String> {
             Some(guarded(|| string_calculator::eval_complex(input, p).map_err(|_| ()), |x| format!("cpx:{:#018x},{:#018x}", x.re.to_bits(), x.im.to_bits())))
         }
         #[cfg(feature = "eval_number")]
+        "numberfrom" => {
+            // Number::from(f64) on a raw bit pattern (C18 through the feature subsets)
+            use string_calculator::Number;
+            let bits = u64::from_str_radix(input.trim_start_matches("0x"), 16).ok()?;
+            Some(match Number::from(f64::from_bits(bits)) {
+                Number::Integer(i) => format!("ok numi:{}", i),
+                Number::Float(f) => format!("ok numf:{:#018x}", f.to_bits()),
+            })
+        }
+        #[cfg(feature = "eval_number")]
         "number" => {
             use string_calculator::Number;
             let p = if ph.starts_with("numi:") { Number::Integer(v.parse().ok()?) } else { Number::Float(hx(v)) };
